@@ -119,6 +119,27 @@ Theorem C12_retired_only_after_all : forall cfg h,
 Proof. exact retired_iff. Qed.
 Print Assumptions C12_retired_only_after_all.
 
+(* a "retired" report is never lost: whatever follows it - a retire accepted (again), refused
+   commands, queries, topology changes - the service stays booked as retired; together with
+   C12_retired_only_after_all: once the last hosted service has reported, in whatever order
+   reports and retire commands came, the node is published as retired (or beyond) *)
+Theorem C12_reports_are_kept : forall cfg h k n,
+  hosted cfg n = true -> reported h n = true ->
+  aget n (svcs (final cfg (h ++ k))) = Some (Retired, declared cfg (h ++ k) n).
+Proof. exact reports_are_kept. Qed.
+Print Assumptions C12_reports_are_kept.
+
+(* retirement support is declared by answering the support query with "ok" and by nothing else:
+   an operation that asks nobody (a notification - also "retired" from a service that never
+   declared support -, a command, a topology change) changes no declaration and not the node's
+   readiness to retire *)
+Theorem C12_support_only_by_query : forall cfg h o,
+  (forall n, asks o n = false) ->
+  (forall n, declared cfg (h ++ [o]) n = declared cfg h n) /\
+  sup (final cfg (h ++ [o])) = sup (final cfg h).
+Proof. exact support_only_by_query. Qed.
+Print Assumptions C12_support_only_by_query.
+
 (* exit (either spelling) is accepted exactly when retired; it publishes Exiting and stops the node *)
 Theorem C12_exit_guard : forall cfg h o,
   is_exit_cmd o = true ->
@@ -265,4 +286,22 @@ Example C12_example_rebuilds :
                      OCmd CWebRetire; ONotify 2; OCmd CExit; OStopDone true]
   /\ dir (final cfg [OQueryAll; OCmd CRetire]) = [(1, Working); (2, Working)]
   /\ holds cfg h (run cfg h) = true.
+Proof. vm_compute. repeat split; reflexivity. Qed.
+
+(* reports and retire commands in any order: a report before the (repeated) retire is kept, the
+   node is retired as soon as the last service has reported; a "retired" notification from a
+   service that answered the support query with "no" does not make retire acceptable *)
+Example C12_example_orders :
+  run [(1, DOk); (2, DOk)]
+      [OQueryAll; OCmd CRetire; OSvcCmd 1 SRetired; OCmd CRetire; OSvcCmd 2 SRetired; OCmd CExit]
+  = [Ob RNone [] [(1, KQuery); (2, KQuery)]; Ob ROk [EPub Retiring] [(1, KRetire); (2, KRetire)];
+     Ob ROk [] []; Ob ROk [EPub Retiring] [(1, KRetire); (2, KRetire)]; Ob ROk [EPub Retired] [];
+     Ob ROk [EPub Exiting; EStop] []]
+  /\ run [(1, DOk); (2, DOk)] [OQueryAll; ONotify 1; OCmd CWebRetire; OSvcCmd 2 SRetired; OCmd CWebNodes]
+  = [Ob RNone [] [(1, KQuery); (2, KQuery)]; Ob RNone [] [];
+     Ob ROk [EPub Retiring] [(1, KRetire); (2, KRetire)]; Ob ROk [EPub Retired] [];
+     Ob (RNodes Retired [(1, (Retired, true)); (2, (Retired, true))]) [] []]
+  /\ run [(1, DOk); (2, DNo)] [OQueryAll; OCmd CRetire; OSvcCmd 2 SRetired; OCmd CRetire; OCmd CWebNodes]
+  = [Ob RNone [] [(1, KQuery); (2, KQuery)]; Ob RNoSupport [] []; Ob ROk [] []; Ob RNoSupport [] [];
+     Ob (RNodes Working [(1, (Working, true)); (2, (Retired, false))]) [] []].
 Proof. vm_compute. repeat split; reflexivity. Qed.
